@@ -162,7 +162,19 @@ def run_program(case, drive, twice=False):
             keep_listeners = (A(), B())
             for l_ in keep_listeners:
                 h.sim.add_listener(SimulatorInterface.STARTING_EVENT, l_)
-        if drive[0] == "pause":
+        slow_probe = {}
+        if drive[0] == "pause-slow":
+            # the event after which the run is paused takes longer than stop() is willing to wait (1 s): until the
+            # run thread has really left the event, the simulator is still stopping and takes no start/step
+            def probe():
+                slow_probe["state"] = h.sim.run_state.name
+                try:
+                    h.sim.step()
+                    slow_probe["step"] = "accepted"
+                except Exception as e:
+                    slow_probe["step"] = type(e).__name__
+            h.start_pause_after(drive[1], ["start"], hold_until_stop_returned=True, while_held=probe)
+        elif drive[0] == "pause":
             h.start_pause_after(drive[1], ["start"])
         elif drive[0] == "pause-other":
             # while this run is paused, unrelated work in the process initialises and runs ANOTHER simulator
@@ -195,6 +207,8 @@ def run_program(case, drive, twice=False):
         d["deliveries"] = h.model.deliveries
         d["seeds_used"] = list(case["seeds"])
         d["starting_listeners"] = starting_log
+        if slow_probe:
+            d["slow_probe"] = slow_probe
         # the pause/segmentation changes START/STOP notifications by design: normalise them away
         d["notifications"] = [e for e in d["notifications"] if e[0] in
                               ("START_REPLICATION", "TIME_CHANGED", "WARMUP", "END_REPLICATION")]
